@@ -388,6 +388,46 @@ int main(int argc, char **argv) {
           std::cout << "\n";
         }
       }
+    } else if (op == "pmono" && w.size() == 5) {
+      // parameter-file constructor: `src:frequency: <text>` ('~' stands for a blank)
+      std::string text = w[3];
+      std::replace(text.begin(), text.end(), '~', ' ');
+      const double expect = dbl(w[4]);
+      ParameterFile params;
+      params.add_value("src:frequency", text);
+      MonochromaticPhotonSourceSpectrum fromfile("src", params, nullptr);
+      MonochromaticPhotonSourceSpectrum plain(expect, -1., nullptr);
+      inject(0.5);
+      const double v = fromfile.get_random_frequency(rg, 0.);
+      const double vp = plain.get_random_frequency(rg, 0.);
+      std::cout << "pmono " << showF(v) << "\n";
+      if (std::stod(text) != dbl(w[1]))
+        bad << " param:mono:number-parsed-differently";
+      if (!(std::fabs(v - vp) <= 1.e-12 * std::fabs(vp)))
+        bad << " param:mono:differs-from-plain-constructor text='" << text << "' gives " << v
+            << " Hz, the same value given directly " << vp << " Hz";
+      const double lo = 3.288465385e15, hi = 4. * 3.289e15;
+      if (expect >= lo && expect <= hi && !(v >= lo * (1. - 1.e-12) && v <= hi * (1. + 1.e-12)))
+        bad << " param:mono:ionizing-value-gives-non-ionizing-frequency text='" << text << "' nu=" << v;
+    } else if (op == "pplanck" && w.size() == 3) {
+      std::string text = w[2];
+      std::replace(text.begin(), text.end(), '~', ' ');
+      const double T = dbl(w[1]);
+      ParameterFile params;
+      if (text != "default")
+        params.add_value("src:temperature", text);
+      PlanckPhotonSourceSpectrum fromfile("src", params, nullptr);
+      PlanckPhotonSourceSpectrum plain(T, -1., nullptr);
+      inject(0.5);
+      const double v = fromfile.get_random_frequency(rg, 0.);
+      std::cout << "pplanck " << showF(fromfile._cumulative_distribution[PLANCKPHOTONSOURCESPECTRUM_NUMFREQ / 2])
+                << " " << showF(v) << "\n";
+      if (fromfile._cumulative_distribution != plain._cumulative_distribution ||
+          fromfile._log_cumulative_distribution != plain._log_cumulative_distribution ||
+          fromfile._log_frequency != plain._log_frequency)
+        bad << " param:planck:differs-from-plain-constructor text='" << text << "'";
+      if (!(v >= 3.288465385e15 * (1. - 1.e-12) && v <= 4. * 3.288465385e15 * (1. + 1.e-12)))
+        bad << " param:planck:nu-out-of-range text='" << text << "' nu=" << v;
     } else if (op == "gettab" && w.size() == 2) {
       auto it = tb.t1.find(w[1]);
       if (it == tb.t1.end())
